@@ -16,7 +16,7 @@ what `elementpath` reads through the proxy protocol (`elementpath/protocols.py`)
 Occurrence constraints, model-group order, identity constraints, assertions, wildcards'
 processContents and attribute wildcards are NOT modelled.
 
-Python transcribed (pinned tree + the two `fix:` commits of branch fix-c20):
+Python transcribed (reference tree = pinned tree + fix-c20 + fix-c20-2):
   `EtreeElementNode.apply_schema`      xpath_nodes.py:1198-1290   → `applyF`, `applyFC` (with cache)
   `EtreeElementNode.clear_types`       xpath_nodes.py:1292-1299   → `clearF`
   `EtreeElementNode.attributes`        xpath_nodes.py:1098-1144   → `attrNodes`
@@ -367,7 +367,7 @@ def isList : SType → Bool
   | union _ _ => false
 
 /-- `xsd_type.root_type` (protocols.py:248: primitive type of an atomic type, primitive type of
-the item of a list, the base union of a union) -/
+the item of a list, the base union of a union) — no longer used by the decoder after fix F20c -/
 def rootType : SType → SType
   | builtin b => builtin b.primitive
   | restr _ b _ => b.rootType
@@ -375,14 +375,15 @@ def rootType : SType → SType
   | union n ms => union n ms
 
 mutual
-/-- `_iter_values(root_type, depth)` of `iter_atomic_values` (decoder.py:98-105): the builtin
-names whose prototypes are tried, in order.  A member that is neither a builtin nor itself a
-union (a user-defined restriction or a list) contributes nothing. -/
+/-- `_iter_values(type_, depth)` of `iter_atomic_values` (decoder.py, with fix F20c): walk the
+derivation chain (`base_type`; `item_type` of a list at depth 1 only) to the nearest type that has
+a prototype; a union contributes the prototypes of its members in order (depth + 1).  A list that
+is reached as a union member contributes nothing (`XsdList.base_type` is `None`). -/
 def iterValues (depth : Nat) : SType → List B
   | builtin b => if depth > 15 then [] else [b]
   | union _ ms => if depth > 15 then [] else iterValuesL (depth + 1) ms
-  | restr _ _ _ => []
-  | list _ _ => []
+  | restr _ base _ => iterValues depth base
+  | list _ item => if depth == 1 then iterValues 1 item else []
 def iterValuesL (depth : Nat) : List SType → List B
   | [] => []
   | m :: ms => iterValues depth m ++ iterValuesL depth ms
@@ -392,7 +393,7 @@ end
 def protos (t : SType) : List B :=
   match t with
   | builtin b => [b]                                    -- xsd_type.name in atomic_values
-  | _ => iterValues 1 t.rootType
+  | _ => iterValues 1 t
 
 end SType
 
